@@ -707,7 +707,19 @@ func c05Judge(r *lp.Run, s *c05set, p probe, ans string) {
 	// an escaped slash is not a separator: the matched template has as many segments as the request target,
 	// and where the same request with a letter in place of the slash fits the template, this one arrives too
 	if p.kind == "slashesc" {
-		if dispatched && strings.Count(p.raw, "/") != strings.Count(fPattern, "/") {
+		k5Swallow := false
+		if dispatched && strings.Count(p.raw, "/") > strings.Count(fPattern, "/") {
+			// fewer segments in the template than in the target: a raw '/' went into an argument. That is K5
+			// when the argument sits at a mid-segment position of the tree (the escaped slash is not involved).
+			for j, a := range fArgs {
+				if strings.Contains(a, "/") && k5Position(s.routes, fPattern, j) {
+					k5Swallow = true
+				}
+			}
+		}
+		if k5Swallow {
+			r.Known(lp.PropFail{Property: "C05", Class: "K5", What: "a mid-segment parameter captures an unescaped '/'", Input: in, Observed: fmt.Sprintf("%s args %q", fPattern, fArgs), Expected: "no raw '/' inside an argument"})
+		} else if dispatched && strings.Count(p.raw, "/") != strings.Count(fPattern, "/") {
 			fail("an escaped slash inside a parameter value is taken for a path separator", fmt.Sprintf("%s args %q", fPattern, fArgs), "a template with "+fmt.Sprint(strings.Count(p.raw, "/"))+" segments, e.g. "+p.tmpl)
 		}
 		plain := make([]string, len(p.args))
